@@ -340,7 +340,7 @@ Example C09_chunk_ranges_source_ex :
 Proof. reflexivity. Qed.
 
 (* ===== (T) the SOURCE of the scanner loops, translated on every run ========= *)
-(* coq/Gen/C09_Src.v holds the loops of split_iter, unique_iter, bucketize and redundant
+(* coq/Gen/C09_Src.v holds the loops of split_iter, unique_iter, bucketize, redundant and chunked_iter
    as harness/translators/c09_loops.py reads them from /repo's current source
    (the argument-dispatch preludes are compared literally).  They are the
    model loops, for all inputs - so the theorems above (str.split semantics,
@@ -377,6 +377,17 @@ Proof.
   exact (fun src kt kf => conj (gen_redundant_false_is_model kt kf src) (gen_redundant_true_is_model kt kf src)).
 Qed.
 Print Assumptions C09_redundant_source_is_model.
+
+(* chunked_iter: the `while True` / islice loop over the shared iterator, with
+   the out-of-fuel outcome carried along (None on both sides); postprocess is
+   the identity on token lists (its str/bytes joining is checked by the type
+   code of the correspondence) *)
+Theorem C09_chunked_iter_source_is_model :
+  forall fuel src size do_fill fill_val,
+    Gchunked_iter fuel src size do_fill fill_val (fun x => x)
+    = chunk_loop fuel size (if do_fill then Some fill_val else None) src.
+Proof. exact (fun fuel src size do_fill fill_val => gen_chunked_is_loop size do_fill fill_val fuel src). Qed.
+Print Assumptions C09_chunked_iter_source_is_model.
 
 Example C09_split_iter_source_ex :
   Gsplit_iter [1; 0; 0; 2; 0; 3; 0] (Nat.eqb 0) true false 1 = [[1]; [2; 0; 3; 0]]
